@@ -602,10 +602,8 @@ impl Harness for DynSegmentHarness {
         let pid = unsafe { libc::getpid() };
         let _ = leftovers("dy", pid);
         remove_leftovers("dy", pid);
-        let g = match errs.lock() {
-            Ok(g) => g,
-            Err(p) => p.into_inner(),
-        };
+        #[allow(unused_mut)]
+        let mut g = take_after_run(&errs);
         let mut violation = g.errs.first().map(|(c, m)| Violation { class: c.clone(), msg: m.clone() });
         let mut inconclusive = g.inconclusive;
         if violation.is_none() {
@@ -914,10 +912,8 @@ impl Harness for AllocHistoryHarness {
         let plan2 = plan.clone();
         crate::kit::crashnote::install_segv_reporter();
         let report = sim_run(cfg.to_cfg(), dec, move || alloc_scenario(&plan2, &e2));
-        let g = match errs.lock() {
-            Ok(g) => g,
-            Err(p) => p.into_inner(),
-        };
+        #[allow(unused_mut)]
+        let mut g = take_after_run(&errs);
         let mut violation = g.errs.first().map(|(c, m)| Violation { class: c.clone(), msg: m.clone() });
         let mut inconclusive = false;
         if violation.is_none() {
